@@ -371,4 +371,359 @@ theorem embJNodes_ofList_appendC20b (ι : Str → Option Int) (a b : JNodes) :
     | cons x r ih => simp [JNodes.ofList, JNodes.toList, ih]
   rw [this, List.map_append]
 
+/-! ### the walk: embeddings of the input and of the walked tree -/
+
+mutual
+  /-- a node as the Python object the *walk* sees: `embJNode`, except that a tagifiable object records what its `tagify()`
+      returns (the convention of `pyTagifyObj`, Py/PrimC10.lean) -/
+  def embInNC20b (ι : Str → Option Int) : JNode → PVal
+    | .comp name props kids =>
+      .obj "JSXTag" [("name", .str name), ("attrs", .dict (embInPC20b ι props)),
+                     ("children", .obj "TagList" [("data", .list (embInKC20b ι kids))])]
+    | .tag name attrs kids =>
+      .obj "Tag" [("name", .str name), ("attrs", embAttrs attrs),
+                  ("children", .obj "TagList" [("data", .list (embInKC20b ι kids))]), ("add_ws", .bool true)]
+    | .str .plain s => .str s
+    | .str .jsx s => mkJsx s
+    | .str .html s => .html s
+    | .md (.mnode n) => .obj "MetadataNode" [("id", .int n)]
+    | .md (.dep d) => .obj "HTMLDependency" [("name", .str d.name)]
+    | .tobj e => .obj "TagifiableObj" [("tagify", embInNC20b ι e)]
+    | .tobjL es => .obj "TagifiableObj" [("tagify", .obj "TagList" [("data", .list (embInKC20b ι es))])]
+  def embInKC20b (ι : Str → Option Int) : JNodes → List PVal
+    | .nil => []
+    | .cons h t => embInNC20b ι h :: embInKC20b ι t
+  def embInVC20b (ι : Str → Option Int) : JVal → PVal
+    | .null => .none
+    | .bool b => .bool b
+    | .num t => (match ι t with
+      | some n => .int n
+      | none => .float t)
+    | .list tup vs => if tup then .tuple (embInVsC20b ι vs) else .list (embInVsC20b ι vs)
+    | .dict fs => .dict (embInPC20b ι fs)
+    | .node n => embInNC20b ι n
+  def embInVsC20b (ι : Str → Option Int) : JVals → List PVal
+    | .nil => []
+    | .cons h t => embInVC20b ι h :: embInVsC20b ι t
+  def embInPC20b (ι : Str → Option Int) : JProps → List (Str × PVal)
+    | .nil => []
+    | .cons k v t => (k, embInVC20b ι v) :: embInPC20b ι t
+end
+
+mutual
+  /-- a node of the *walked* tree (`(x.walk d).node`) as the object the walk returns: a component / tag with walked props and
+      children; `.tobj e` there stands for an object the walk left un-expanded (`tagify()` of a tagifiable object returned
+      another one), `.tobjL es` for the TagList a `tagify()` returned -/
+  def embOutNC20b (ι : Str → Option Int) : JNode → PVal
+    | .comp name props kids =>
+      .obj "JSXTag" [("name", .str name), ("attrs", .dict (embOutPC20b ι props)),
+                     ("children", .obj "TagList" [("data", .list (embOutKC20b ι kids))])]
+    | .tag name attrs kids =>
+      .obj "Tag" [("name", .str name), ("attrs", embAttrs attrs),
+                  ("children", .obj "TagList" [("data", .list (embOutKC20b ι kids))]), ("add_ws", .bool true)]
+    | .tobjL es => .obj "TagList" [("data", .list (embInKC20b ι es))]
+    | n => embInNC20b ι n
+  def embOutKC20b (ι : Str → Option Int) : JNodes → List PVal
+    | .nil => []
+    | .cons h t => embOutNC20b ι h :: embOutKC20b ι t
+  def embOutVC20b (ι : Str → Option Int) : JVal → PVal
+    | .node n => embOutNC20b ι n
+    | v => embInVC20b ι v
+  def embOutPC20b (ι : Str → Option Int) : JProps → List (Str × PVal)
+    | .nil => []
+    | .cons k v t => (k, embOutVC20b ι v) :: embOutPC20b ι t
+end
+
+/-- a collected metadata node as the Python object -/
+def embMetaC20b (ι : Str → Option Int) (m : JMeta) : PVal := embInNC20b ι (.md m)
+
+/-- the keys of a dict that `copy.copy` / `JSXTagAttrDict.__setitem__` would rename -/
+def cleanKeysC20b (ks : List Str) : Bool := ks.all fun k => !k.contains '_'
+
+mutual
+  /-- side conditions of the tie for the walk, through the whole tree (expansions included): the props of a component have
+      each name once (a Python dict has) and no name contains `_` (stored names never do: `normAttrName_no_underscoreC20b`; a
+      name with `_`, put there behind the dict's back, would be renamed by `copy.copy` / the assignment of the walk); the
+      attribute names of an html Tag likewise; a dict that is itself a prop value has no key with `_` (the universe does not
+      tell a dict from a JSXTagAttrDict, which `copy.copy` would rename); no tagifiable object whose `tagify()` returns a tagifiable
+      object whose `tagify()` returns a TagList (the model's `.tobjL` then stands for two different objects) -/
+  def walkOkNC20b : JNode → Bool
+    | .comp _ props kids => decide props.keys.Nodup && cleanKeysC20b props.keys && walkOkPC20b props && walkOkKC20b kids
+    | .tag _ attrs kids => cleanKeysC20b (attrs.map (·.1)) && walkOkKC20b kids
+    | .tobj (.tobjL _) => false
+    | .tobj e => walkOkNC20b e
+    | _ => true
+  def walkOkKC20b : JNodes → Bool
+    | .nil => true
+    | .cons h t => walkOkNC20b h && walkOkKC20b t
+  def walkOkVC20b : JVal → Bool
+    | .node n => walkOkNC20b n
+    | .dict fs => cleanKeysC20b fs.keys
+    | _ => true
+  def walkOkPC20b : JProps → Bool
+    | .nil => true
+    | .cons _ v t => walkOkVC20b v && walkOkPC20b t
+end
+
+mutual
+  /-- calls of the walk nest at most this deep below a call on the node (the expansion of a tagifiable object is walked by
+      the same call) -/
+  def whNC20b : JNode → Nat
+    | .comp _ props kids => max (whPC20b props) (whKC20b kids) + 1
+    | .tag _ _ kids => whKC20b kids + 1
+    | .tobj e => whNC20b e
+    | _ => 1
+  def whKC20b : JNodes → Nat
+    | .nil => 0
+    | .cons h t => max (whNC20b h) (whKC20b t)
+  def whVC20b : JVal → Nat
+    | .node n => whNC20b n
+    | _ => 1
+  def whPC20b : JProps → Nat
+    | .nil => 0
+    | .cons _ v t => max (whVC20b v) (whPC20b t)
+end
+
+theorem whN_posC20b : (x : JNode) → 1 ≤ whNC20b x
+  | .comp _ _ _ => by simp [whNC20b]
+  | .tag _ _ _ => by simp [whNC20b]
+  | .str _ _ => by simp [whNC20b]
+  | .md _ => by simp [whNC20b]
+  | .tobj e => by simp only [whNC20b]; exact whN_posC20b e
+  | .tobjL _ => by simp [whNC20b]
+
+theorem whV_posC20b (v : JVal) : 1 ≤ whVC20b v := by
+  cases v <;> simp [whVC20b, whN_posC20b]
+
+/-! ### the visitor and the loops of the walk -/
+
+/-- what the visitor returns for a value -/
+def visOutC20b (ι : Str → Option Int) : JVal → PVal
+  | .node (.tobj e) => embInNC20b ι e
+  | .node (.tobjL es) => .obj "TagList" [("data", .list (embInKC20b ι es))]
+  | v => embInVC20b ι v
+
+/-- what it appends to `metadata_nodes` -/
+def visMetasC20b (ι : Str → Option Int) : JVal → List PVal
+  | .node (.md m) => [embMetaC20b ι m]
+  | .node (.tobj (.md m)) => [embMetaC20b ι m]
+  | _ => []
+
+/-- the conditions of `walkOkVC20b` that one call of the visitor needs -/
+def visOkC20b : JVal → Bool
+  | .node (.comp _ ps _) => cleanKeysC20b ps.keys
+  | .node (.tag _ a _) => cleanKeysC20b (a.map (·.1))
+  | .node (.tobj (.comp _ ps _)) => cleanKeysC20b ps.keys
+  | .node (.tobj (.tag _ a _)) => cleanKeysC20b (a.map (·.1))
+  | .dict fs => cleanKeysC20b fs.keys
+  | _ => true
+
+theorem embInP_keysC20b (ι : Str → Option Int) : (ps : JProps) → (embInPC20b ι ps).map (·.1) = ps.keys
+  | .nil => rfl
+  | .cons k v t => by simp [embInPC20b, JProps.keys, embInP_keysC20b ι t]
+
+theorem clean_anyC20b (kvs : List (Str × PVal)) (h : cleanKeysC20b (kvs.map (·.1)) = true) :
+    kvs.any (fun kv => kv.1.contains '_') = false := by
+  rw [List.any_eq_false]
+  intro kv hkv
+  have := (List.all_eq_true.mp h) kv.1 (List.mem_map.2 ⟨kv, hkv, rfl⟩)
+  simpa using this
+
+theorem embAttrs_cleanC20b (a : Attrs) (h : cleanKeysC20b (a.map (·.1)) = true) :
+    (a.map fun kv => (kv.1, embVal kv.2)).all (fun kv => !kv.1.contains '_' && isStoredAttrC20b kv.2) = true := by
+  rw [List.all_eq_true]
+  intro x hx
+  obtain ⟨kv, hkv, rfl⟩ := List.mem_map.1 hx
+  have := (List.all_eq_true.mp h) kv.1 (List.mem_map.2 ⟨kv, hkv, rfl⟩)
+  cases hv : kv.2 <;> simp_all [embVal, isStoredAttrC20b]
+
+theorem embInNC20b_tobj (ι : Str → Option Int) (e : JNode) :
+    embInNC20b ι (.tobj e) = .obj "TagifiableObj" [("tagify", embInNC20b ι e)] := by
+  cases e <;> rfl
+
+theorem normAttrName_cleanC20b (k : Str) (h : k.contains '_' = false) : normAttrName k = k := by
+  have hm : '_' ∉ k := by simpa using h
+  unfold normAttrName
+  have hl : k.getLast? ≠ some '_' := by
+    intro e
+    exact hm (List.mem_of_getLast? e)
+  simp only [hl, if_false]
+  show List.map _ k = k
+  rw [List.map_congr_left (g := id)]
+  · simp
+  · intro c hc
+    have : c ≠ '_' := fun e => hm (e ▸ hc)
+    simp [this]
+
+theorem dictSet_midC20b (k : Str) (o v : PVal) : (pre rest : List (Str × PVal)) → k ∉ pre.map (·.1) →
+    Py.dictSet k v (pre ++ (k, o) :: rest) = pre ++ (k, v) :: rest
+  | [], rest, _ => by simp [Py.dictSet]
+  | (k', v') :: t, rest, h => by
+    simp only [List.map_cons, List.mem_cons, not_or] at h
+    have : ¬ k' = k := fun e => h.1 e.symm
+    simp [Py.dictSet, this, dictSet_midC20b k o v t rest h.2]
+
+theorem setItemU_midC20b (pre rest : List PVal) (c v : PVal) :
+    pySetItemU (.obj "TagList" [("data", .list (pre ++ c :: rest))]) (.int pre.length) v
+      = .ok (.obj "TagList" [("data", .list (pre ++ v :: rest))]) := by
+  have h1 : ¬ ((pre.length : Int) < 0) := by omega
+  have h2 : ¬ ((pre.length : Int) < 0 ∨ (pre.length : Int).toNat ≥ (pre ++ c :: rest).length) := by
+    simp
+  have h3 : ¬ (pre.length + (rest.length + 1) ≤ pre.length) := by omega
+  simp [pySetItemU, userListData?, fieldGet?, pySetItem, h1, h3, fieldSet]
+
+/-- `enumerate` from `k` -/
+def enumPC20b : Nat → List PVal → List PVal
+  | _, [] => []
+  | k, x :: r => .tuple [.int k, x] :: enumPC20b (k + 1) r
+
+theorem zip_range'_C20b : (xs : List PVal) → (k : Nat) →
+    ((List.range' k xs.length).zip xs).map (fun p => PVal.tuple [PVal.int (p.1 : Nat), p.2]) = enumPC20b k xs
+  | [], k => rfl
+  | x :: r, k => by
+    simp only [List.length_cons, List.range'_succ, List.zip_cons_cons, List.map_cons, enumPC20b]
+    rw [zip_range'_C20b r (k + 1)]
+
+theorem pyEnumerate_taglistC20b (xs : List PVal) :
+    pyEnumerate (.obj "TagList" [("data", .list xs)]) = .ok (.list (enumPC20b 0 xs)) := by
+  simp only [pyEnumerate, pyIter, List.find?, pure_eq_ok, ok_bind]
+  simp [List.range_eq_range', zip_range'_C20b]
+
+/-- the child loop of the walk, whatever its body, for any object `mk data` given as a function of its children data: if one
+    pass replaces the child at its position by the result of walking it and appends what that walk collected, the loop does
+    so for every child -/
+theorem kids_walk_loopC20b {β τ : Type} (mk : List PVal → PVal) (inE outE : JNode → PVal) (mt : JNode → List PVal)
+    (ks : List JNode) (pre : List PVal) (mds : List PVal) (t0 : τ)
+    (f : PVal → PVal × PVal × τ → PyM (ForInStep (PVal × PVal × τ)))
+    (hstep : ∀ (pre' : List PVal) (c : JNode) (rest : List JNode) (mds' : List PVal) (t : τ), c ∈ ks →
+      ∃ t', f (.tuple [.int pre'.length, inE c]) (mk (pre' ++ inE c :: rest.map inE), .list mds', t)
+        = .ok (.yield (mk (pre' ++ outE c :: rest.map inE), .list (mds' ++ mt c), t')))
+    (k : PVal × PVal × τ → PyM β) (r : PyM β)
+    (hk : ∀ s, s.1 = mk (pre ++ ks.map outE) → s.2.1 = .list (mds ++ ks.flatMap mt) → k s = r) :
+    (forIn (enumPC20b pre.length (ks.map inE)) (mk (pre ++ ks.map inE), PVal.list mds, t0) f >>= k) = r := by
+  induction ks generalizing pre mds t0 with
+  | nil => exact hk _ (by simp) (by simp)
+  | cons c rest ih =>
+    obtain ⟨t', ht'⟩ := hstep pre c rest mds t0 (by simp)
+    simp only [List.map_cons, enumPC20b, List.forIn_cons, ht', ok_bind]
+    have := ih (pre ++ [outE c]) (mds ++ mt c) t' (fun p c' r' m t hc => by
+      exact hstep p c' r' m t (by simp [hc])) (fun s h1 h2 => hk s (by simpa using h1) (by simpa using h2))
+    simpa using this
+
+/-- the attribute loop of the walk on a JSXTag, likewise: the dict `pre ++ items` of an object `mk dict` -/
+theorem props_walk_loopC20b {β τ : Type} (mk : List (Str × PVal) → PVal) (inE outE : JVal → PVal) (mt : JVal → List PVal)
+    (ps : List (Str × JVal)) (pre : List (Str × PVal)) (mds : List PVal) (t0 : τ)
+    (hnd : (pre.map (·.1) ++ ps.map (·.1)).Nodup)
+    (f : PVal → PVal × PVal × τ → PyM (ForInStep (PVal × PVal × τ)))
+    (hstep : ∀ (pre' : List (Str × PVal)) (kv : Str × JVal) (rest : List (Str × JVal)) (mds' : List PVal) (t : τ), kv ∈ ps →
+      kv.1 ∉ pre'.map (·.1) →
+      ∃ t', f (.tuple [.str kv.1, inE kv.2])
+          (mk (pre' ++ (kv.1, inE kv.2) :: rest.map fun x => (x.1, inE x.2)), .list mds', t)
+        = .ok (.yield (mk (pre' ++ (kv.1, outE kv.2) :: rest.map fun x => (x.1, inE x.2)), .list (mds' ++ mt kv.2), t')))
+    (k : PVal × PVal × τ → PyM β) (r : PyM β)
+    (hk : ∀ s, s.1 = mk (pre ++ ps.map fun x => (x.1, outE x.2)) → s.2.1 = .list (mds ++ ps.flatMap fun x => mt x.2) → k s = r) :
+    (forIn (ps.map fun kv => PVal.tuple [.str kv.1, inE kv.2]) (mk (pre ++ ps.map fun x => (x.1, inE x.2)), PVal.list mds, t0) f
+      >>= k) = r := by
+  induction ps generalizing pre mds t0 with
+  | nil => exact hk _ (by simp) (by simp)
+  | cons kv rest ih =>
+    have hfresh : kv.1 ∉ pre.map (·.1) := by
+      intro hm
+      have := List.nodup_append.mp hnd
+      exact this.2.2 _ hm _ (by simp) rfl
+    obtain ⟨t', ht'⟩ := hstep pre kv rest mds t0 (by simp) hfresh
+    simp only [List.map_cons, List.forIn_cons, ht', ok_bind]
+    have hnd' : ((pre ++ [(kv.1, outE kv.2)]).map (·.1) ++ rest.map (·.1)).Nodup := by
+      simpa [List.append_assoc] using hnd
+    have := ih (pre ++ [(kv.1, outE kv.2)]) (mds ++ mt kv.2) t' hnd' (fun p c' r' m t hc hf => by
+      exact hstep p c' r' m t (by simp [hc]) hf) (fun s h1 h2 => hk s (by simpa using h1) (by simpa using h2))
+    simpa using this
+
+/-! ### the walk at the model level -/
+
+/-- what the walk answers for a value, at the model level -/
+def walkResC20b (ι : Str → Option Int) (v : JVal) (mds : List PVal) : PyM PVal :=
+  .ok (.tuple [embOutVC20b ι (v.walkVal .demanded).node, .list (mds ++ (v.walkVal .demanded).metas.map (embMetaC20b ι))])
+
+theorem embInK_toListC20b (ι : Str → Option Int) : (ks : JNodes) → embInKC20b ι ks = ks.toList.map (embInNC20b ι)
+  | .nil => rfl
+  | .cons h t => by simp [embInKC20b, JNodes.toList, embInK_toListC20b ι t]
+
+theorem embInP_toListC20b (ι : Str → Option Int) : (ps : JProps) →
+    embInPC20b ι ps = ps.toList.map fun kv => (kv.1, embInVC20b ι kv.2)
+  | .nil => rfl
+  | .cons k v t => by simp [embInPC20b, JProps.toList, embInP_toListC20b ι t]
+
+theorem walkKids_outC20b (ι : Str → Option Int) : (ks : JNodes) →
+    embOutKC20b ι (ks.walkKids .demanded).node = ks.toList.map (fun c => embOutNC20b ι (c.walk .demanded).node)
+      ∧ (ks.walkKids .demanded).metas = ks.toList.flatMap (fun c => (c.walk .demanded).metas)
+  | .nil => by simp [JNodes.walkKids, embOutKC20b, JNodes.toList]
+  | .cons h t => by
+    have := walkKids_outC20b ι t
+    simp [JNodes.walkKids, embOutKC20b, JNodes.toList, this.1, this.2]
+
+theorem walkProps_outC20b (ι : Str → Option Int) : (ps : JProps) →
+    embOutPC20b ι (ps.walkProps .demanded).node = ps.toList.map (fun kv => (kv.1, embOutVC20b ι (kv.2.walkVal .demanded).node))
+      ∧ (ps.walkProps .demanded).metas = ps.toList.flatMap (fun kv => (kv.2.walkVal .demanded).metas)
+  | .nil => by simp [JProps.walkProps, embOutPC20b, JProps.toList]
+  | .cons k v t => by
+    have := walkProps_outC20b ι t
+    simp [JProps.walkProps, embOutPC20b, JProps.toList, this.1, this.2]
+
+theorem keys_toListC20b : (fs : JProps) → fs.keys = fs.toList.map (·.1)
+  | .nil => rfl
+  | .cons k v t => by simp [JProps.keys, JProps.toList, keys_toListC20b t]
+
+theorem whK_memC20b : (ks : JNodes) → (c : JNode) → c ∈ ks.toList → whNC20b c ≤ whKC20b ks
+  | .nil, c, h => by simp [JNodes.toList] at h
+  | .cons x t, c, h => by
+    simp only [JNodes.toList, List.mem_cons] at h
+    simp only [whKC20b]
+    rcases h with rfl | h
+    · omega
+    · have := whK_memC20b t c h; omega
+
+theorem whP_memC20b : (ps : JProps) → (kv : Str × JVal) → kv ∈ ps.toList → whVC20b kv.2 ≤ whPC20b ps
+  | .nil, kv, h => by simp [JProps.toList] at h
+  | .cons k v t, kv, h => by
+    simp only [JProps.toList, List.mem_cons] at h
+    simp only [whPC20b]
+    rcases h with rfl | h
+    · simp only; omega
+    · have := whP_memC20b t kv h; omega
+
+theorem walkOkK_memC20b : (ks : JNodes) → walkOkKC20b ks = true → ∀ c ∈ ks.toList, walkOkNC20b c = true
+  | .nil, _, c, h => by simp [JNodes.toList] at h
+  | .cons x t, ht, c, h => by
+    simp only [walkOkKC20b, Bool.and_eq_true] at ht
+    simp only [JNodes.toList, List.mem_cons] at h
+    rcases h with rfl | h
+    · exact ht.1
+    · exact walkOkK_memC20b t ht.2 c h
+
+theorem walkOkP_memC20b : (ps : JProps) → walkOkPC20b ps = true → ∀ kv ∈ ps.toList, walkOkVC20b kv.2 = true
+  | .nil, _, c, h => by simp [JProps.toList] at h
+  | .cons k v t, ht, c, h => by
+    simp only [walkOkPC20b, Bool.and_eq_true] at ht
+    simp only [JProps.toList, List.mem_cons] at h
+    rcases h with rfl | h
+    · exact ht.1
+    · exact walkOkP_memC20b t ht.2 c h
+
+/-- `walkOkVC20b` gives what one call of the visitor needs -/
+theorem visOk_of_walkOkC20b (v : JVal) (h : walkOkVC20b v = true) : visOkC20b v = true := by
+  cases v with
+  | node x =>
+    cases x with
+    | comp n ps ks => simp only [walkOkVC20b, walkOkNC20b, Bool.and_eq_true] at h; exact h.1.1.2
+    | tag n a ks => simp only [walkOkVC20b, walkOkNC20b, Bool.and_eq_true] at h; exact h.1
+    | tobj e =>
+      cases e with
+      | comp n ps ks => simp only [walkOkVC20b, walkOkNC20b, Bool.and_eq_true] at h; exact h.1.1.2
+      | tag n a ks => simp only [walkOkVC20b, walkOkNC20b, Bool.and_eq_true] at h; exact h.1
+      | _ => rfl
+    | _ => rfl
+  | dict fs => exact h
+  | _ => rfl
+
 end HtmlVerif.SrcTie
